@@ -27,9 +27,9 @@ func ruleCompressor(r *Report) {
 		tn := typeShort(fn.Signature.Recv().Type())
 		side := ""
 		switch {
-		case strings.HasPrefix(fn.Name(), "Compress"):
+		case strings.HasPrefix(fnName(fn), "Compress"):
 			side = "compress"
-		case strings.HasPrefix(fn.Name(), "Decompress"):
+		case strings.HasPrefix(fnName(fn), "Decompress"):
 			side = "decompress"
 		default:
 			continue
@@ -73,7 +73,7 @@ func ruleCompressor(r *Report) {
 			})
 		}
 		// destination buffer emptied before use (only the WithBuf flavours have one)
-		if strings.HasSuffix(fn.Name(), "WithBuf") {
+		if strings.HasSuffix(fnName(fn), "WithBuf") {
 			for _, s := range CallsIn(fn, Keys("bytes.NewBuffer")) {
 				a := s.Call().Common().Args[0]
 				po := paramOrigin(a)
